@@ -345,12 +345,30 @@ func scopeCases(run *vh.Run, root *vh.Rng, base, n int) {
 				run.Drop("reference rejects the seed")
 				return
 			}
-			acct := m
-			for _, idx := range []uint32{purpose + H, coin + H, 0 + H} {
+			// acct: the BIP32 account key. acctDefect: what the listed finding (a hardened child of a DERIVED parent
+			// whose scalar has a leading zero byte is computed from the left-aligned scalar) makes of the same path,
+			// if one of the two derived parents on it (m/p', m/p'/c') is such a key.
+			acct, acctDefect, onDefectPath := m, m, false
+			for depth, idx := range []uint32{purpose + H, coin + H, 0 + H} {
+				parentD := acctDefect
 				if acct, err = acct.Child(idx); err != nil {
 					run.Drop("reference cannot derive the account key")
 					return
 				}
+				if depth > 0 && parentD.Key[0] == 0 {
+					raw := bytes.TrimLeft(parentD.Key, "\x00")
+					if acctDefect, err = defectChild(parentD, raw, idx); err != nil {
+						run.Drop("reference cannot derive the account key")
+						return
+					}
+					onDefectPath = true
+				} else if acctDefect, err = parentD.Child(idx); err != nil {
+					run.Drop("reference cannot derive the account key")
+					return
+				}
+			}
+			if onDefectPath {
+				run.Count("scoped_keystores_with_short_derived_parent_on_the_path", 1)
 			}
 			at := map[string]string{"class": "keystore-scope", "purpose_is_44": fmt.Sprint(purpose == 44)}
 			for br := uint32(0); br < 2; br++ {
@@ -366,6 +384,17 @@ func scopeCases(run *vh.Run, root *vh.Rng, base, n int) {
 					got := hex.EncodeToString(ma.PubKey().SerializeCompressed())
 					run.Count("scoped_keystore_keys_compared", 1)
 					if got != hex.EncodeToString(want.Pub()) {
+						if onDefectPath {
+							if dbr, e1 := acctDefect.Child(br); e1 == nil {
+								if dk, e2 := dbr.Child(uint32(j)); e2 == nil && got == hex.EncodeToString(dk.Pub()) {
+									// exactly the listed finding, reached through the wallet
+									run.Violate(ci, "bip32-child-mismatch", map[string]string{"class": "hardened-child-of-parent-scalar-below-2^248:left-aligned-hmac-input"},
+										map[string]interface{}{"seed_hex": hex.EncodeToString(seed), "path": fmt.Sprintf("m/%d'/%d'/0'/%d/%d", purpose, coin, br, j), "impl_pub": got,
+											"reference_pub": hex.EncodeToString(want.Pub()), "via": "keystore created under a registered scope"})
+									return
+								}
+							}
+						}
 						run.Violate(ci, "keystore-key-differs-from-bip32-path", at, map[string]interface{}{"seed_hex": hex.EncodeToString(seed),
 							"path": fmt.Sprintf("m/%d'/%d'/0'/%d/%d", purpose, coin, br, j), "impl_pub": got, "reference_pub": hex.EncodeToString(want.Pub())})
 						return
